@@ -8,10 +8,11 @@ paths that go through plain attributes and builtin containers only."""
 FEATURES = ['property', 'nondata_desc', 'data_desc', 'slots', 'meta_property', 'meta_desc',
             'getattr', 'getattribute', 'dir', 'getitem', 'iter', 'next', 'call', 'len', 'bool',
             'classattr', 'instattr', 'nested', 'method', 'sub_builtin_desc', 'getdel_desc',
-            'cm_property', 'meta_shadowed']
+            'cm_property', 'meta_shadowed', 'ann_property']
 
 PRELUDE = '''
-import collections, types
+import collections, types, typing
+T_VAR = typing.TypeVar('T_VAR')
 COUNTER = collections.Counter()
 LOGGED = collections.Counter()
 
@@ -148,6 +149,15 @@ def gen_class(rnd, name, base, feats, meta=None):
         # an instance __dict__ entry shadowed by the data descriptor of the same name
         init += ["        self.__dict__['gd'] = 12345"]
     body += init or ['        pass']
+    if 'ann_property' in feats:
+        # properties whose return annotation cannot be resolved to a type (a name that only
+        # exists for type checkers, a bare TypeVar) and one that can
+        body += ['    @property', "    def aprop(self) -> 'OnlyForTypeCheckers':",
+                 "        COUNTER[('%s', 'property')] += 1" % name, '        return Leaf()',
+                 '    @property', '    def tprop(self) -> T_VAR:',
+                 "        COUNTER[('%s', 'property')] += 1" % name, '        return Leaf()',
+                 '    @property', '    def iprop(self) -> int:',
+                 "        COUNTER[('%s', 'property')] += 1" % name, '        return 1']
     if 'cm_property' in feats:
         # @classmethod on top of @property: the classmethod hands the access on (Python 3.9-3.12)
         body += ['    @classmethod', '    @property', '    def cprop(cls):',
